@@ -474,7 +474,13 @@ def Nth(s, i):
         for k in range(len(cases) - 1, -1, -1):
             o, p = cases[k]
             idx = Sub(i, o)
-            elem = p.args[0] if p.op == 'seq.unit' else Term('seq.nth', (p, idx), seq_elem(s.sort))
+            if p.op == 'seq.unit':
+                elem = p.args[0]
+            elif p.op == 'seq.extract':
+                # within the slice (which the case guard establishes on the upper side) the element is the base's
+                elem = Term('seq.nth', (p.args[0], Add(p.args[1], idx)), seq_elem(s.sort))
+            else:
+                elem = Term('seq.nth', (p, idx), seq_elem(s.sort))
             if res is None:
                 res = elem
             else:
@@ -524,10 +530,11 @@ def StrFromInt(i):
     return Term('str.from_int', (i,), STR)
 
 
-def ForAll(bvars, body):
+def ForAll(bvars, body, patterns=()):
+    """patterns: terms (containing all bound variables between them) given to the solvers as one multi-pattern"""
     if body.op == 'const':
         return body
-    return Term('forall', (body,), BOOL, tuple((b.val, b.sort) for b in bvars))
+    return Term('forall', (body,) + tuple(patterns), BOOL, tuple((b.val, b.sort) for b in bvars))
 
 
 def Exists(bvars, body):
@@ -705,6 +712,16 @@ def _print(t, out, names):
         return
     if op in ('forall', 'exists'):
         out.append('(%s (%s) ' % (op, ' '.join('(%s %s)' % (sym(n), s) for n, s in t.val)))
+        if len(t.args) > 1:
+            out.append('(! ')
+            _print(t.args[0], out, names)
+            out.append(' :pattern (')
+            for k, pat in enumerate(t.args[1:]):
+                if k:
+                    out.append(' ')
+                _print(pat, out, names)
+            out.append(')))')
+            return
         _print(t.args[0], out, names)
         out.append(')')
         return
